@@ -276,6 +276,40 @@ def c20(ctx):
                   exhaustive=True)
 
 
+# ----------------------------------------------------------------------------- C11
+@prop("C11")
+def c11(ctx):
+    consts = dict(MaxN=4 if ctx.quick() else 6)
+    cases = gen(ctx, "Gen_C11", cfgtext(invariants=["Emit"], constants=consts), timeout=3000, heap="8g")
+    events = harness(ctx, ["exec", "memflow"], cases)
+    rejects = judge(ctx, "Trace_C11", events)
+    return report(ctx, events, rejects,
+                  nontrivial=lambda e: e["n"] > 0,
+                  key=lambda e: json.dumps([e["flow"], e["n"], e.get("dec"), e.get("vl"), e.get("c"), e.get("hole")]),
+                  rule="TLC enumerates COSE_Sign programs: n = 0..N signers of three algorithm families, signing, serialisation, optional wire round trip, "
+                       "every subset of slots corrupted (garbage / emptied / overwritten with another slot's signature), verification with every permutation "
+                       "class of verifiers and counts n-1, n, n+1; wire images with zero or empty signatures; symbolic signers/verifiers record every call; TLC "
+                       "judges call order, inputs (each signer's own Sig_structure), early stop and the overall verdict; non-trivial = n > 0",
+                  exhaustive=True)
+
+
+# ----------------------------------------------------------------------------- C10
+@prop("C10")
+def c10(ctx):
+    cases = gen(ctx, "Gen_C10", cfgtext(invariants=["Emit"]), timeout=3000, heap="8g")
+    events = harness(ctx, ["exec", "memflow"], cases)
+    rejects = judge(ctx, "Trace_C10", events)
+    return report(ctx, events, rejects,
+                  nontrivial=lambda e: True,
+                  key=lambda e: json.dumps([e["flow"], e.get("pk"), e.get("form"), e.get("abbr"), e.get("dec"), e["ext"], e.get("mu"), e.get("why"), e.get("r"),
+                                            e["steps"][-1].get("extnil")]),
+                  rule="TLC enumerates countersignature programs: 4 parent kinds x pointer/value x full/abbreviated x constructed/decoded parent (decoded from a "
+                       "wire image with a non-minimal protected length prefix) x external data (nil/empty/non-empty) x one mutation of the parent (none, payload, "
+                       "signature, protected bucket, unprotected bucket, detaching); unsigned / payload-less parents; four replay attempts across kinds and "
+                       "forms; symbolic signer/verifier record their input; TLC judges inputs against CountersignStructure (RFC 9338) and the verdicts",
+                  exhaustive=True)
+
+
 def setup():
     ctx = Ctx("setup", "quick", 1)
     try:
